@@ -1,11 +1,13 @@
 import Driver.Util
 import Driver.Suites.Blocks
 import Driver.Suites.Registry
+import Driver.Suites.ResumeCodec
 /-! Table of suites known to the driver.  One line per suite (merge=union friendly). -/
 namespace Driver
 def registry : List Suite := [
   Suites.Blocks.suite,
   Suites.Registry.suite,
   Suites.Registry.suiteConcurrent,
+  Suites.ResumeCodec.suite,
 ]
 end Driver
